@@ -841,6 +841,10 @@ func (q *TransferQueue) handleTransferResult(
 			// HTTP 422).
 			if errors.IsUnprocessableEntityError(res.Error) {
 				q.unsupportedContentType = true
+				// The advice printed for HTTP 422 does not replace
+				// the error: the object was not transferred, so
+				// the caller must not report success.
+				q.errorc <- res.Error
 			} else {
 				q.errorc <- res.Error
 			}
